@@ -6,6 +6,7 @@ unsigned char nondet_uchar(void);
 struct tok { int code, start, len; };
 static unsigned char t[N];
 /* tokenise chunk [b,e); state (cond) carried in *cond */
+static int cond_at_k = -1;      /* whole scan: start condition in force at offset K (inside a token: the one the token was scanned in) */
 static int chunk(int b, int e, int *cond, struct tok *out, int n) {
   int pos = b; int bol = 1;
   for (int it = 0; it < N && pos < e; ++it) {
@@ -19,11 +20,15 @@ static int chunk(int b, int e, int *cond, struct tok *out, int n) {
     if (a == 0) { st = last_st; len = last_len; a = vx_accept[st]; }
     __CPROVER_assert(len > 0 && a > 0 && a <= VX_NRULES, "C13: scanner always makes progress with a rule");
     int code = act_tab[a].tok; if (code == -28) code = t[pos];
+    if (b == 0 && e == N && pos < K && K < pos + len) cond_at_k = *cond;
     if (act_tab[a].pop) *cond = 0; else if (act_tab[a].push) *cond = act_tab[a].push;
     out[n].code = code; out[n].start = pos; out[n].len = len; ++n;
+    if (b == 0 && e == N && pos + len == K) cond_at_k = *cond;
     bol = (t[pos + len - 1] == '\n');
     pos += len;
   }
+  /* the fragment is a buffer of its own: its end runs the <<EOF>> action of the current start condition */
+  if (eof_tab[*cond].pop) *cond = 0; else if (eof_tab[*cond].push) *cond = eof_tab[*cond].push;
   return n;
 }
 int main(void) {
@@ -40,12 +45,15 @@ int main(void) {
 #endif
   struct tok A[N+1], B[N+1]; int ca = 0, cb = 0;
   int na = chunk(0, N, &ca, A, 0);
-  int nb = chunk(0, K, &cb, B, 0); nb = chunk(K, N, &cb, B, nb);
+  int nb = chunk(0, K, &cb, B, 0); int cond_after_first = cb; nb = chunk(K, N, &cb, B, nb);
   _Bool boundary = 0; for (int i = 0; i < na; ++i) if (A[i].start + A[i].len == K) boundary = 1;
   _Bool same = (na == nb);
   for (int i = 0; i < N; ++i) if (i < na && i < nb) same = same && A[i].code == B[i].code && A[i].start == B[i].start && A[i].len == B[i].len;
   __CPROVER_assert(0, "WITNESS reachable");
-#ifdef P1
+#ifdef P3
+  /* (inside a lexeme the known lexeme split also changes the condition, e.g. the doubled quote "" of a literal cut in two) */
+  __CPROVER_assert(!boundary || cond_after_first == cond_at_k, "C13-P3: being inside a string literal / comment (the start condition) is carried unchanged over a fragment boundary that falls between two tokens");
+#elif defined(P1)
   __CPROVER_assert(!boundary || same, "C13-P1: fragment boundary on a token boundary gives the same tokens");
 #else
   __CPROVER_assert(boundary || same, "C13-P2: fragment boundary inside a lexeme gives the same tokens");
